@@ -8,6 +8,7 @@ CONSTANTS
   Fmts = {"bc", "idx_bc"}
   NFiles = {1}
   Lazy = {FALSE, TRUE}
+  Touches = {"lookup", "getitem"}
   Variant = "design"
 CONSTRAINT Emit
 CONSTRAINT OnlyInit
